@@ -306,10 +306,15 @@ class Paragraph(BlockToken):
     setext_pattern = re.compile(r' {0,3}(=+|-+) *$')
     parse_setext = True  # can be disabled by Quote
 
+    class _SetextLines(tuple):
+        """Read result for a paragraph that ends in a setext heading underline."""
+
     def __new__(cls, lines):
-        if not isinstance(lines, list):
-            # setext heading token, return directly
-            return lines
+        if isinstance(lines, cls._SetextLines):
+            # the paragraph turned out to be a setext heading: build that token instead.
+            # (not done in read(), because inline parsing may only start after the
+            # whole document has been scanned for link reference definitions.)
+            return SetextHeading(list(lines))
         return super().__new__(cls)
 
     def __init__(self, lines):
@@ -334,7 +339,7 @@ class Paragraph(BlockToken):
             # check if the paragraph being parsed is in fact a Setext heading
             if cls.parse_setext and cls.is_setext_heading(next_line):
                 line_buffer.append(next(lines))
-                return SetextHeading(line_buffer)
+                return cls._SetextLines(line_buffer)
 
             # finish the check for paragraph-breaking tokens with the special case: ThematicBreak
             if ThematicBreak.check_interrupts_paragraph(lines):
